@@ -181,7 +181,7 @@ def partition(defs: List[str], rng: random.Random) -> Dict[str, str]:
     k = rng.randrange(1, min(5, len(defs)) + 1)
     names = []
     for i in range(k):
-        sub = rng.choice(["", "sub/", "sub/deeper/", "zz/", "a_first/"])
+        sub = rng.choice(["", "sub/", "sub/deeper/", "zz/", "a_first/", ".shared/", "sub/.hidden/", "__generated__/"])  # (dot-named directories are directories too)
         names.append("%s%s%d%s" % (sub, rng.choice(["schema", "types", "part"]), i, rng.choice([".graphql", ".graphqls", ".gql"])))
     files: Dict[str, List[str]] = {n: [] for n in names}
     for d in defs:
@@ -191,8 +191,12 @@ def partition(defs: List[str], rng: random.Random) -> Dict[str, str]:
         if not ds:
             continue
         text = "\n\n".join(ds)
-        style = rng.randrange(4)
-        if style == 0:
+        style = rng.randrange(6)
+        if style == 4:
+            text = text.replace("\n", "\r\n") + "\r\n"  # written on Windows
+        elif style == 5:
+            text = "\ufeff" + text + "\n"  # saved with a byte-order mark (an ignored token of the language)
+        elif style == 0:
             text += "\n"
         elif style == 1:
             text += "\n# trailing comment without newline"  # the next file must not be swallowed into this comment
@@ -483,7 +487,7 @@ def run(tier: str, seed: int) -> int:
     r.assumptions = ["graphql-core introspection of the harness-built schema is what a conformant remote endpoint returns"]
     r.floors = {"partitions": 100, "introspections": 50, "files_compared": 1000, "input_models_compared": 100, "failure_cases": 15}
     n = 500 if tier == "thorough" else 60
-    cases = [cw.make_case(seed, i, tier=tier, dirty=(["schema.extend"] if i % 3 == 1 else [])) for i in range(n)]
+    cases = [cw.make_case(seed, i, tier=tier, dirty=(["schema.extend"] if i % 3 == 1 else ["wrap.deep"] if i % 3 == 2 else [])) for i in range(n)]
     for i, c in enumerate(cases):
         if i % 4 == 3:
             c["deprecated_inputs"] = True
